@@ -266,7 +266,7 @@ fn make_case(progs: &[Vec<R>], strat: Strat, mailbox: Mailbox, start_err_at: Opt
         exec: ExecCfg { horizon, ..ExecCfg::default() },
         bound,
         scene: Box::new(ProgScene {
-            spawn: SpawnCfg { mailbox, strat, timeout: None },
+            attach: crate::progscene::Attach::None, spawn: SpawnCfg { mailbox, strat, timeout: None },
             roles: vec![role],
             clients,
             extra: X { strat, timers },
